@@ -27,6 +27,13 @@ func judgeSeqCaseX(w *mc.Worker, c *seqCase, vars map[string]string, oc *originC
 	in := ref.Inputs{Vars: vars, Bal: bal, Meta: oc.Meta, OverdraftFlag: odFlag}
 	model := ref.Run(c.Prog, in)
 	fs := judge(c.Prog, in, out, model)
+	if out.Err == nil && out.Panic == "" && len(out.Postings) > 0 {
+		// the same script on the same store object a second time: the store's content is an input,
+		// not a scratch pad (the stores of this harness hand out their own numbers)
+		for _, f := range judge(c.Prog, in, RunReal(c.PR, vars, st, oc.Flags), model) {
+			fs = append(fs, finding{f.Clause, "second run on the same store object: " + f.Msg})
+		}
+	}
 	attributed := false
 	if attributeStmts && model.Err == "" && out.Err == nil && out.Panic == "" && len(c.Stmts) > 1 {
 		per, ok := attribute(c, vars, oc, out)
